@@ -236,8 +236,9 @@ def cases_metrics(a, d, n, gname=''):
         if impl.startswith('ok '):
             v = float(impl[3:])
             spec = 'c08.spec_range %s' % (enc_rat(Fraction(v)) if math.isfinite(v) else '2')
-        c = Case(('dasgupta_score', mt, dt, weights), {'entry': 'dasgupta_score', 'weights': weights}, None, impl, spec, nontriv,
-                 {'f': 'dasgupta_score', 'graph': gdesc, 'dendrogram': _ddesc(d), 'weights': weights})
+        c = Case(('dasgupta_score', mt, dt, weights), {'entry': 'dasgupta_score', 'weights': weights},
+                 'c08.dasgupta_score %d %s %s %s' % (n, mt, dt, deg), impl, spec, nontriv,
+                 {'f': 'dasgupta_score', 'graph': gdesc, 'dendrogram': _ddesc(d), 'weights': weights}, canon='rat')
         c.tol = admissible
         out.append(c)
     return out
@@ -308,7 +309,29 @@ def _same(c, model, impl, spec_ok):
     return False
 
 
+class _ClauseCtx:
+    """The context seen by the evaluation: a failure of the specification carries the clause that failed in its
+    signature (`clause`), so that a known finding names the failing clause and not merely the class of inputs."""
+
+    def __init__(self, ctx):
+        object.__setattr__(self, '_ctx', ctx)
+
+    def __getattr__(self, name):
+        return getattr(object.__getattribute__(self, '_ctx'), name)
+
+    def __setattr__(self, name, value):
+        setattr(object.__getattribute__(self, '_ctx'), name, value)
+
+    def spec_fail(self, sig, case, detail):
+        if 'raised-on-admissible-input' in detail:
+            clause = 'raised ' + str(detail['raised-on-admissible-input'])
+        else:
+            clause = ' '.join(str(detail.get('spec_answer', '')).split(' ')[:2])
+        object.__getattribute__(self, '_ctx').spec_fail(dict(sig, clause=clause), case, detail)
+
+
 def evaluate(ctx, cases):
+    ctx = _ClauseCtx(ctx)
     # an exception (or a malformed array) on an admissible input is a failure of the property itself
     for c in cases:
         if c.tol and not str(c.impl).startswith('ok'):
